@@ -38,6 +38,9 @@ def ncases(tier):
 def run_case(ctx, i, rng):
     feat = wfgen.Features(future_offsets=rng.random() < 0.3,
                           stop_after=rng.random() < 0.3,
-                          retries=rng.random() < 0.3)
+                          retries=rng.random() < 0.3,
+                          # a task waiting for an xtrigger can still make
+                          # progress: no stall while one is pending
+                          xtriggers=rng.random() < 0.25)
     klass = rng.choice(['with-failures', 'with-failures', 'all-complete'])
     simple_case(ctx, i, rng, PID, feat, plan_class=klass, hostile=0.5)
